@@ -240,7 +240,28 @@ func (g *Gen) lineBlock(b *Block, depth int, n int) {
 				inner := &Block{}
 				g.lineBlock(inner, depth+1, 1+g.R.Intn(3))
 				iv := g.fresh("i")
-				if g.R.Intn(3) == 0 {
+				if g.R.Intn(4) == 0 {
+					// what is attributed to the iterator call belongs to the loop header:
+					// the current line seen from inside the iterator, and the position of a
+					// failing iterator (not callable, raising at level 1 and 2)
+					var itf Expr
+					switch g.R.Intn(4) {
+					case 0:
+						itf = Fn([]string{"s", "c"}, false, Blk(CallSN("emitline", Str(g.fresh("itl")), CallN("curline2")),
+							&SIf{Sites: make([]Site, 1), Conds: []Expr{Bin("<", N("c"), Num(2))}, Blocks: []*Block{Blk(Return(Bin("+", N("c"), Num(1))))}}))
+					case 1:
+						itf = &ENil{}
+					case 2:
+						itf = Fn(nil, false, Blk(CallSN("error", Str("Eiter"), Num(2))))
+					default:
+						itf = N("hostfail")
+					}
+					b.Stmts = append(b.Stmts, CallSN("emit", Str("iter-pos"), CallN("pcall", Fn(nil, false, Blk(
+						Local1(g.fresh("pad"), Num(1)),
+						&SGenFor{Names: []string{iv}, Exprs: []Expr{itf, &ENil{}, Num(0)}, Body: inner},
+						Local1(g.fresh("pad"), Num(2)))))))
+					g.cover("loop:iterator-position")
+				} else if g.R.Intn(3) == 0 {
 					// the iterator asks for the locals of the looping function at every call
 					b.Stmts = append(b.Stmts, &SGenFor{Names: []string{iv}, Exprs: []Expr{
 						Fn([]string{"s", "c"}, false, Blk(CallSN("probe2", Str(g.fresh("iter"))),
